@@ -3,6 +3,8 @@ use crate::run::Builder;
 pub mod mutex;
 pub mod sem;
 pub mod reuse;
+pub mod io;
+pub mod spawn;
 pub mod timers;
 pub mod queue;
 pub mod cancelmix;
@@ -20,6 +22,10 @@ pub fn lookup(name: &str) -> Option<Builder> {
         "sem" => Some(sem::build),
         "reuse" => Some(reuse::build),
         "cls" => Some(reuse::build_cls),
+        "io" => Some(io::build),
+        "io_bulk" => Some(io::build_bulk),
+        "spawn" => Some(spawn::build),
+        "spawn_many" => Some(spawn::build_many),
         "timers" => Some(timers::build),
         "queue" => Some(queue::build),
         "cancelmix" => Some(cancelmix::build),
